@@ -230,7 +230,11 @@ thread_local! {
     static ZST_MADE: Cell<u64> = Cell::new(0);
     static ZST_DROPPED: Cell<u64> = Cell::new(0);
 }
-pub fn zst_reset() { ZST_MADE.with(|c| c.set(0)); ZST_DROPPED.with(|c| c.set(0)); }
+pub fn zst_reset() { ZST_MADE.with(|c| c.set(0)); ZST_DROPPED.with(|c| c.set(0)); FLAGS_Q.with(|c| c.set(0)); FLAGS_RAN.with(|c| c.set(0)); }
+thread_local! {
+    static FLAGS_Q: Cell<u64> = Cell::new(0);
+    static FLAGS_RAN: Cell<u64> = Cell::new(0);
+}
 pub fn zst_counts() -> (u64, u64) { (ZST_MADE.with(|c| c.get()), ZST_DROPPED.with(|c| c.get())) }
 impl Default for CNull {
     fn default() -> Self { ZST_MADE.with(|c| c.set(c.get() + 1)); CNull }
@@ -253,6 +257,32 @@ impl Comp for CNull {
     shared_rjoin_fn!();
 }
 
+/// `VH_ZST6=1`: kind 6 (`FlaggedStorage` over `VecStorage`) holds a ZERO-SIZED component instead of `CFVec` (value always
+/// 0, like kind 5): what a tracked storage reports must not depend on the size of the component type (C12).
+pub fn zst6() -> bool {
+    static Z: std::sync::OnceLock<bool> = std::sync::OnceLock::new();
+    *Z.get_or_init(|| std::env::var("VH_ZST6").map(|v| v == "1").unwrap_or(false))
+}
+pub fn is_null_kind(k: usize) -> bool { k == 5 || (k == 6 && zst6()) }
+
+#[derive(Debug, Default)]
+pub struct CFVecZ;
+impl Drop for CFVecZ {
+    fn drop(&mut self) { note_drop(0); }
+}
+impl Component for CFVecZ {
+    type Storage = FlaggedStorage<Self, VecStorage<Self>>;
+}
+impl Comp for CFVecZ {
+    const KIND: usize = 6;
+    const TRACKED: u8 = 1;
+    fn new(_: i64) -> Self { CFVecZ }
+    fn val(&self) -> i64 { 0 }
+    fn set(&mut self, _: i64) {}
+    tracked_fns!();
+    shared_rjoin_fn!();
+}
+
 pub const NUM_KINDS: usize = 12;
 
 macro_rules! with_kind {
@@ -264,7 +294,7 @@ macro_rules! with_kind {
             3 => { type $T = CHash; $body }
             4 => { type $T = CBTree; $body }
             5 => { type $T = CNull; $body }
-            6 => { type $T = CFVec; $body }
+            6 => { if zst6() { type $T = CFVecZ; $body } else { type $T = CFVec; $body } }
             7 => { type $T = CFDense; $body }
             8 => { type $T = CFHash; $body }
             9 => { type $T = CDFVec; $body }
@@ -337,6 +367,9 @@ pub enum Op {
     /// `GenericWriteStorage::remove` returns nothing: the harness reads the value first and does not log its destruction,
     /// so that the line reads like `rem`.
     Generic(Box<Op>),
+    /// `lget` / `lgetmut`: the same look-up through a lending join of the one storage,
+    /// `(&st).lend_join().get(e, &entities)` / `(&mut st).lend_join().get(e, &entities)` (`JoinLendIter::get`): same model ops.
+    Lend(Box<Op>),
     /// Queues a lazy action that panics (outside the model; always followed by the case's final `maintain`, whose unwind the
     /// harness catches). What happens in this world afterwards is not specified — the point is that OTHER worlds of the
     /// process must behave as if it had not happened (C20).
@@ -344,6 +377,11 @@ pub enum Op {
     /// After a caught panic the world must still be usable: queues a lazy action that sets a flag, calls `maintain`,
     /// and reports `ran` / `notrun` (outside the model; only generated after `lazy_panic; maintain`).
     LazyProbe,
+    /// `lazy_flag`: queues a lazy action that only counts itself (no effect on the world, nothing destroyed; outside the
+    /// model). `lazy_flag_check` prints how many were queued and how many have run: an action queued before a `maintain`
+    /// whose purge panicked (caught) is still queued and runs in the next `maintain` (C19 "remains usable", C09).
+    LazyFlag,
+    LazyFlagCheck,
     /// Probe outside the model: `entry_inner(2^24 + 1).or_insert(v)` — the mask refuses the index (panic inside
     /// `BitSet::add`), and the value handed over must still be destroyed exactly once (C08; no destructor panics).
     /// Only generated as the last op before `drop_world`, for kinds whose storage tolerates the far index cheaply.
@@ -432,9 +470,12 @@ pub fn show_op(op: &Op) -> String {
         Op::DropWorld => s.push_str("drop_world"),
         Op::Fault(n) => write!(s, "fault {}", n).unwrap(),
         Op::Generic(inner) => { s.push('g'); s.push_str(&show_op(inner)); }
+        Op::Lend(inner) => { s.push('l'); s.push_str(&show_op(inner)); }
         Op::EntryFar(k, v) => write!(s, "entry_far {} {}", k, v).unwrap(),
         Op::LazyPanic => s.push_str("lazy_panic"),
         Op::LazyProbe => s.push_str("lazy_probe"),
+        Op::LazyFlag => s.push_str("lazy_flag"),
+        Op::LazyFlagCheck => s.push_str("lazy_flag_check"),
         Op::Dump => s.push_str("dump"),
     }
     s
@@ -539,9 +580,16 @@ pub fn parse_ops(ts: &[&str]) -> Option<Op> {
             v.extend_from_slice(rest);
             Op::Generic(Box::new(parse_ops(&v)?))
         }
+        [g, rest @ ..] if ["lget", "lgetmut"].contains(g) => {
+            let mut v: Vec<&str> = vec![&g[1..]];
+            v.extend_from_slice(rest);
+            Op::Lend(Box::new(parse_ops(&v)?))
+        }
         ["entry_far", k, v] => Op::EntryFar(k.parse().ok()?, v.parse().ok()?),
         ["lazy_panic"] => Op::LazyPanic,
         ["lazy_probe"] => Op::LazyProbe,
+        ["lazy_flag"] => Op::LazyFlag,
+        ["lazy_flag_check"] => Op::LazyFlagCheck,
         ["dump"] => Op::Dump,
         _ => return None,
     })
@@ -984,6 +1032,35 @@ fn exec_inner(world: &mut World, ctx: &Shared, op: &Op) -> String {
                 other => exec_inner(world, ctx, other),
             }
         }
+        Op::Lend(inner) => {
+            match &**inner {
+                Op::Get(k, h) => {
+                    if !is_reg(ctx, *k) { return "nostore".into(); }
+                    let e = match resolve(ctx, *h) { Some(e) => e, None => return "skip".into() };
+                    with_kind!(*k, T => {
+                        let st = world.read_storage::<T>();
+                        let ents = world.entities();
+                        let mut it = (&st).lend_join();
+                        opt_val(it.get(e, &ents))
+                    })
+                }
+                Op::GetMut { k, h, derefs, write } => {
+                    if !is_reg(ctx, *k) { return "nostore".into(); }
+                    let e = match resolve(ctx, *h) { Some(e) => e, None => return "skip".into() };
+                    with_kind!(*k, T => {
+                        let mut st = world.write_storage::<T>();
+                        let ents = world.entities();
+                        let old = st.get(e).map(|c| c.val());
+                        let mut it = (&mut st).lend_join();
+                        match it.get(e, &ents) {
+                            Some(acc) => { apply_access::<T, _>(acc, *derefs, *write); format!("some {}", old.unwrap_or(-999)) }
+                            None => "none".into(),
+                        }
+                    })
+                }
+                other => exec_inner(world, ctx, other),
+            }
+        }
         Op::LazyPanic => {
             world.read_resource::<LazyUpdate>().exec(|_| panic!("verif: lazy action panics"));
             "ok".into()
@@ -995,6 +1072,12 @@ fn exec_inner(world: &mut World, ctx: &Shared, op: &Op) -> String {
             let r = catch_unwind(AssertUnwindSafe(|| world.maintain()));
             if r.is_err() { "panic".into() } else if flag.load(std::sync::atomic::Ordering::SeqCst) { "ran".into() } else { "notrun".into() }
         }
+        Op::LazyFlag => {
+            FLAGS_Q.with(|c| c.set(c.get() + 1));
+            world.read_resource::<LazyUpdate>().exec(|_| FLAGS_RAN.with(|c| c.set(c.get() + 1)));
+            "ok".into()
+        }
+        Op::LazyFlagCheck => format!("q {} ran {}", FLAGS_Q.with(|c| c.get()), FLAGS_RAN.with(|c| c.get())),
         Op::EntryFar(k, v) => {
             if !is_reg(ctx, *k) { return "nostore".into(); }
             if ![0usize, 3, 4, 6, 8].contains(k) { return "skip".into(); }
@@ -1077,7 +1160,7 @@ impl Exec {
 }
 
 pub fn is_mutating(op: &Op) -> bool {
-    !matches!(op, Op::Alive(_) | Op::WAlive(_) | Op::EJoin | Op::Get(..) | Op::Has(..) | Op::Count(_) | Op::Empty(_) | Op::Mask(_) | Op::Slice(_) | Op::Events(_) | Op::Fault(_) | Op::Dump)
+    !matches!(op, Op::Alive(_) | Op::WAlive(_) | Op::EJoin | Op::Get(..) | Op::Has(..) | Op::Count(_) | Op::Empty(_) | Op::Mask(_) | Op::Slice(_) | Op::Events(_) | Op::Fault(_) | Op::Dump | Op::LazyFlag | Op::LazyFlagCheck)
 }
 
 #[derive(Clone, Copy)]
@@ -1196,7 +1279,7 @@ pub struct StoreProfile {
 fn gen_comps(rng: &mut Rng, kinds: &[usize], val: &mut i64) -> Vec<(usize, i64)> {
     let mut cs = Vec::new();
     for &k in kinds {
-        if rng.chance(1, 2) { *val += 1; cs.push((k, if k == 5 { 0 } else { *val })); }
+        if rng.chance(1, 2) { *val += 1; cs.push((k, if is_null_kind(k) { 0 } else { *val })); }
     }
     cs
 }
@@ -1209,7 +1292,7 @@ fn gen_dw(rng: &mut Rng, val: &mut i64, null: bool) -> (u32, Option<i64>) {
 
 fn gen_simple_store_op(rng: &mut Rng, p: &StoreProfile, nlog: &mut usize, val: &mut i64, depth: u32) -> Op {
     let k = *rng.pick(&p.kinds);
-    let null = k == 5;
+    let null = is_null_kind(k);
     let mut nv = |val: &mut i64| { *val += 1; if null { 0 } else { *val } };
     let h = pick_slot(rng, *nlog);
     let ws: [u32; 31] = [
@@ -1233,6 +1316,10 @@ fn gen_simple_store_op(rng: &mut Rng, p: &StoreProfile, nlog: &mut usize, val: &
     // a fifth of the plain lookups / accesses / insertions / removals go through the generic storage traits
     if matches!(op, Op::Get(..) | Op::GetMut { .. } | Op::Ins(..) | Op::Rem(..)) && rng.chance(1, 5) {
         return Op::Generic(Box::new(op));
+    }
+    // ... and a sixth of the remaining look-ups through a lending join of the storage (`JoinLendIter::get`)
+    if matches!(op, Op::Get(..) | Op::GetMut { .. }) && rng.chance(1, 6) {
+        return Op::Lend(Box::new(op));
     }
     op
 }
@@ -1353,9 +1440,13 @@ pub fn gen_store_script(rng: &mut Rng, len: usize, p: &StoreProfile) -> Vec<Op> 
         if p.faults {
             let destroying = matches!(op, Op::Ins(..) | Op::Entry(_, _, EntryOp::OrInsert { .. }) | Op::DelNow(_) | Op::DelBatch(_) | Op::DelAll | Op::Clear(_) | Op::Maintain);
             if destroying && rng.chance(1, if p.churn { 8 } else { 3 }) {
+                // a maintain whose purge may panic, with a (harmless) lazy action queued in the same frame
+                let flagged = matches!(op, Op::Maintain) && rng.chance(1, 2);
+                if flagged { ops.push(Op::LazyFlag); }
                 ops.push(Op::Fault(rng.below(4)));
                 ops.push(op);
                 ops.push(Op::Dump);
+                if flagged { ops.push(Op::LazyFlagCheck); ops.push(Op::Maintain); ops.push(Op::LazyFlagCheck); }
                 continue;
             }
         }
@@ -1426,7 +1517,7 @@ pub fn exhaustive_alphabet() -> Vec<Op> {
 /// Store alphabet for bounded-exhaustive storage histories on kind `k` (two entities).
 pub fn store_alphabet(k: usize) -> Vec<Op> {
     // the zero-sized component of the null storage (kind 5) has the single value 0
-    let z = |v: i64| if k == 5 { 0 } else { v };
+    let z = |v: i64| if is_null_kind(k) { 0 } else { v };
     vec![
         Op::CreateW { atomic: false, dropped: false, comps: vec![(k, z(7))] },
         Op::CreateW { atomic: true, dropped: false, comps: vec![] },
